@@ -116,6 +116,24 @@ CHECKS["C17"] = dict(
    note="Trusted: Lean kernel, Model/Net.lean, the net extractor, harness. Not modelled: TCP, TLS records, real time. One defect repaired (F28: panic on a full queue). Observation: the caller still waits ten seconds per message for a dead destination.",
    technique="Lean 4 proof (round-trip by induction over frame sequences, interleaving-independent queue invariants) + regenerated constants + differential and live correspondence")
 
+CHECKS["C08"] = dict(
+   text="Lean 4 theorems over abstract groups (any scalar field, any three modules with a bilinear pairing), for every message vector of every length, all randomness, every hash value and challenge: the prover's request carries a proof that verifies (blind_proof_verifies); "
+        "every signer's partial signature unblinds to (x_k + sum y_ki m_i) h, which passes UnBlind's pairing check under that signer's published key (unblind_eq, unblind_check_passes); for every polynomial sharing of degree < t and every set of at least t signers with "
+        "distinct points the witnesses aggregate with the set's Lagrange coefficients to the witness of the threshold key (witnesses_aggregate); the proof of knowledge built from it verifies under the threshold key (pok_verifies); end to end threshold_flow_complete. "
+        "Tie: the arithmetic statements of all 17 functions are regenerated from the source and pinned; the real flow runs for every listed (n,t), message vector and signer subset.",
+   design="4/C08",
+   note="Trusted: Lean kernel, Model/PsAlgebra.lean (statement lists pinned by extraction, transcription by reading), harness. Assumed: module/bilinearity structure of the curve library, parties numbered 1..n, sharing from the DKG (C05/C18).",
+   technique="Lean 4 proof (module algebra, Lagrange interpolation over polynomials) + regenerated equation lists + end-to-end runs of the real scheme")
+
+CHECKS["C09"] = dict(
+   text="Lean 4 theorems, for every field, groups and pairing non-degenerate at g2: BLS verification is equivalent to sigma = x H(m) (bls_verify_iff), hence exactly which other message, key, altered share or swapped assignment still verifies (only the trivial ones: bls_wrong_message, "
+        "bls_wrong_key, bls_altered_share with the non-zero Lagrange coefficient, bls_swapped_assignment); for PS every verification equation with an altered bound field (a_i, b_i, cm, nu, kappa) holds for at most one challenge, with the challenge fixed d, f, s, Gamma, Phi are "
+        "determined (altered_*_rejected), the pairing equation pins the randomised witness (pok_witness_unique), the request is verified before a share is applied (request_checked_first); no verifying function mutates anything but fresh locals "
+        "(no_aliased_mutation over the regenerated census). Unforgeability proper is a computational assumption and not claimed. Tie: regenerated equations, oracle inputs and census; 300+ alterations and repeated calls on the real code.",
+   design="4/C09",
+   note="Trusted: Lean kernel, Model/PsAlgebra.lean, the ps extractor, harness. One defect repaired (F29: verification modified the proof object). 'Only if produced by t genuine shares' is reduced to its algebraic content; the cryptographic assumption is stated.",
+   technique="Lean 4 proof (uniqueness / rigidity of the verification relations) + regenerated aliasing census and oracle inputs + differential alteration runs on the real verifiers")
+
 CHECKS["C12"] = dict(
    text="Lean 4 theorems over the handler tables as a transition system with one action per lock acquisition: for every interleaving of a session's caller and callback threads (late callbacks included) the tables hold nothing under its keys afterwards (sign_no_residue, dkg_no_residue), "
         "re-admission, refusal of a duplicate session without any change, inertness of late traffic, and non-interference: any global interleaving of any number of sessions on disjoint keys projects onto each signing session's own run (noninterference, by a simulation argument). "
